@@ -491,7 +491,7 @@ func VerifC30FoldRangeIn() {
 // to (c1 + c2) + x. x is a 16-digit decimal of 17 or 18 integer digits, c1 and c2 are 1..9.
 // A failure of this label documents that limit of the claim; it is not a defect of the Folder.
 //
-//symgo:harness prop=C30 tier=thorough arith=int tshards=1 ttimeout=600 qtimeout=30000 bounds=c1_+_x_+_c2_with_literals_1..9_and_x_any_positive_16-digit_decimal_with_exponent_17_or_18 outside=this_harness_is_outside_the_C30_claim:_it_documents_that_re-association_changes_decimal_rounding
+//symgo:disabled-harness (documents the rounding limit of the claim; fails by design, so it is not run) prop=C30 tier=thorough arith=int tshards=1 ttimeout=600 qtimeout=30000 bounds=c1_+_x_+_c2_with_literals_1..9_and_x_any_positive_16-digit_decimal_with_exponent_17_or_18 outside=this_harness_is_outside_the_C30_claim:_it_documents_that_re-association_changes_decimal_rounding
 func VerifC30FoldReassoc() {
 	c1, c2 := rt.IntRange("c1", 1, 9), rt.IntRange("c2", 1, 9)
 	coef := rt.U64Range("coef", 1000_0000_0000_0000, 9999_9999_9999_9999)
